@@ -58,6 +58,7 @@ func parseScript(s string, id int, log *[]string) *vScriptConn {
 // real loopback listener that can be switched up/down on one fixed port
 type vListener struct {
 	sync.Mutex
+	reset    bool // accept, then reset the connection at once
 	addr     string
 	ln       net.Listener
 	received map[string]*bytes.Buffer // by remote address of the accepted connection
@@ -95,6 +96,13 @@ func (v *vListener) up() {
 			c, err := ln.Accept()
 			if err != nil {
 				return
+			}
+			if v.reset {
+				if tc, ok := c.(*net.TCPConn); ok {
+					tc.SetLinger(0)
+				}
+				c.Close()
+				continue
 			}
 			v.Lock()
 			buf := &bytes.Buffer{}
@@ -146,6 +154,8 @@ func (v *vListener) total() int {
 	return n + 1000000*len(v.received)
 }
 
+var vSendResets int
+
 var (
 	vSendLis    *vListener
 	vSendLog    []string
@@ -167,11 +177,21 @@ func vSendReset() {
 	vSendLis = newVListener()
 	vSendLog = nil
 	vSendDials = nil
+	vSendResets = 0
 }
 
 func vDialCallback(conn net.Conn) {
 	vSendDials = append(vSendDials, conn.LocalAddr().String())
 	vSendDialed = append(vSendDialed, conn)
+	if vSendLis != nil && vSendLis.reset {
+		vSendResets++
+		// the destination accepts and resets: wait until the reset has arrived, so that the write that
+		// follows fails deterministically
+		conn.SetReadDeadline(time.Now().Add(2 * time.Second))
+		tmp := make([]byte, 16)
+		conn.Read(tmp)
+		conn.SetReadDeadline(time.Time{})
+	}
 }
 
 func newScriptedClient(spec string, reconnectable bool, id int) *TCPClientTransport {
@@ -209,9 +229,16 @@ func init() {
 		return "ok"
 	})
 	vReg("send listener", func(a []string) string {
-		if a[0] == "up" {
+		switch a[0] {
+		case "up":
+			vSendLis.down()
+			vSendLis.reset = false
 			vSendLis.up()
-		} else {
+		case "reset":
+			vSendLis.down()
+			vSendLis.reset = true
+			vSendLis.up()
+		default:
 			vSendLis.down()
 		}
 		return "ok"
@@ -236,7 +263,7 @@ func init() {
 			}
 			vSendLis.Unlock()
 			t := vSendLis.total()
-			if acc == len(vSendDials) && t == last {
+			if (vSendLis.reset || acc == len(vSendDials)-vSendResets) && t == last {
 				stable++
 				if stable >= 3 {
 					break
